@@ -58,7 +58,8 @@ def gen_expr(rng, avail, depth):
     r = rng.random()
     if depth <= 0 or r < 0.3:
         if rng.random() < 0.8:
-            return ['p', rng.choice(avail)]
+            # half of the time the highest port: chains S -> D1 -> D2 -> ...
+            return ['p', avail[-1] if rng.random() < 0.5 else rng.choice(avail)]
         return ['lit', rng.choice([0, 1, 2, 3, 5, -1])]
     if r < 0.62:
         f = rng.choice(['ADD', 'ADD', 'SUB', 'MUL', 'MIN', 'MAX'])
@@ -92,7 +93,8 @@ class C01(Prop):
             'of the read call), expressions over an acyclic graph (port i reads ports < i) in a small language '
             '(ADD SUB MUL MIN MAX GT EQ AND OR NOT IF AVAILABLE DEFAULT, integer values), 1..4 bursts of timed '
             'operations (driver-level source changes, API writes on ports without expression, expression edits, '
-            'enable/disable) run against the real 50 ms polling loop in virtual time; after each burst the hub is '
+            'enable/disable, driver read faults on sources: read_value raising / SkipRead until recovery) run against '
+            'the real 50 ms polling loop in virtual time; after each burst the hub is '
             'left alone until quiescent. Non-trivial = at least one derived port was written by its expression in a '
             'burst; distinct = distinct (expressions, latencies, burst scripts).')
     CORRESPONDENCE = ('Core.step? (passBegin/passRead/passHandleA/passHandleB/evalTake/evalCmp/writeBegin/writeEnd + '
@@ -110,7 +112,12 @@ class C01(Prop):
                    'dependencies, no self-reference, no direct API write / driver-level change on a port that carries an '
                    'expression; a port without expression gets its first one while none of its API writes is in flight',
                    'evaluation errors (disabled or unknown port, arithmetic error) leave the port unconstrained',
-                   'a port whose expression was cleared keeps whatever was written last (not compared with the model)']
+                   'a port whose expression was cleared keeps whatever was written last (not compared with the model)',
+                   'driver read faults (raising read_value incl. the 10 s retry suspension, SkipRead) on ports WITHOUT '
+                   'expression are stuttering steps of the model (Core.passSkip, covered by `converges`); the oracle is '
+                   'evaluated on the real hub also at quiescent moments while a source cannot be read (it must keep '
+                   'reporting the last good value and nothing downstream may move); failing reads of expression ports '
+                   'are not generated (C15)']
 
     def setup(self):
         self.hub = hub_c01.Hub()
@@ -159,6 +166,13 @@ class C01(Prop):
                               {'type': 'number', 'reg': 7, 'rlat': [20], 'wlat': [0], 'expr': ['p', 1], 'xf': True}],
                     'bursts': [[[65, 'src', 0, 0], [114, 'expr', 1, ['p', 0]], [116, 'en', 2, False]],
                                [[13, 'src', 0, 5], [18, 'en', 2, True]]]})
+        # driver read faults on a source (raising, then SkipRead), persisting over a quiescent moment, then recovering:
+        # the hub keeps reporting the last good value, nothing downstream moves; the change made meanwhile arrives later
+        out.append({'ports': [dict(src, reg=5), {'type': 'number', 'reg': 0, 'rlat': [0], 'wlat': [0],
+                                                  'expr': ['ADD', ['p', 0], ['lit', 1]]},
+                              {'type': 'boolean', 'reg': 0, 'rlat': [7], 'wlat': [20], 'expr': ['GT', ['p', 1], ['lit', 3]]}],
+                    'bursts': [[[20, 'fault', 0, 'err']], [[0, 'src', 0, 1]], [[30, 'fault', 0, None]],
+                               [[0, 'fault', 0, 'skip']], [[10, 'src', 0, 7]], [[0, 'fault', 0, None]]]})
         # third defect (force-capture): expression port enabled while a (long) polling pass is past its turn
         out.append({'ports': [dict(src, reg=None),
                               {'type': 'number', 'reg': 3, 'rlat': [0], 'wlat': [0], 'expr': ['p', 0], 'enabled': False},
@@ -190,25 +204,40 @@ class C01(Prop):
                 spec['kind'] = rng.choice(['sensor', 'sensor', 'virtual'])
             ports.append(spec)
         enabled = [p['enabled'] for p in ports]
+        faulting = set()
         kinds = {i: p.get('kind', 'sensor') for i, p in enumerate(ports)}
         bursts = []
         for _ in range(rng.choice([1, 2, 2, 3, 4] if tier == 'quick' else [1, 2, 3, 4, 5, 6])):
             ops = []
-            structural = set()      # ports whose expression / enabled state is edited in this burst
+            structural = set()      # ports whose expression / enabled / fault state is edited in this burst
             nops = rng.choice([1, 1, 2, 3, 4, 6])
             span = rng.choice([0, 30, 150, 150, 400])
             for _ in range(nops):
                 t = rng.randint(0, span) if span else 0
                 r = rng.random()
                 sources = [i for i in range(n) if i not in exprs and i not in structural]
-                if r < 0.62 and sources:
+                if r < 0.07:
+                    # driver read fault on a sensor source (begins, or an earlier one ends); alone on its port in a burst
+                    cands = [i for i in range(n) if i not in exprs and kinds[i] == 'sensor'
+                             and not any(o[2] == i for o in ops)]
+                    if not cands:
+                        continue
+                    i = rng.choice(cands)
+                    structural.add(i)
+                    if i in faulting:
+                        faulting.discard(i)
+                        ops.append([t, 'fault', i, None])
+                    else:
+                        faulting.add(i)
+                        ops.append([t, 'fault', i, rng.choice(['err', 'err', 'skip'])])
+                elif r < 0.62 and sources:
                     i = rng.choice(sources)
                     typ = ports[i]['type']
                     v = rng.choice([0, 1]) if typ == 'boolean' else rng.choice([0, 1, 2, 3, 4, 5, 8, -1, -3])
                     if kinds[i] == 'virtual':
                         ops.append([t, 'api', i, v])
                     else:
-                        if rng.random() < 0.05:
+                        if rng.random() < 0.08:
                             v = None
                         ops.append([t, 'src', i, v])
                 elif r < 0.80:
@@ -219,7 +248,7 @@ class C01(Prop):
                     structural.add(i)
                     ops.append([t, 'en', i, enabled[i]])
                 else:
-                    cands = [i for i in range(1, n) if not any(o[2] == i for o in ops)]
+                    cands = [i for i in range(1, n) if i not in faulting and not any(o[2] == i for o in ops)]
                     if not cands:
                         continue
                     i = rng.choice(cands)
@@ -246,6 +275,7 @@ class C01(Prop):
         for i, p in enumerate(case['ports']):
             if p.get('expr') is not None and any(q >= i for q in hub_c01.expr_deps(p['expr'])):
                 return False
+        faulting = set()
         for burst in case['bursts']:
             edited = {o[2] for o in burst if o[1] in ('expr',)}
             for o in burst:
@@ -253,11 +283,17 @@ class C01(Prop):
                     return False
                 if o[1] in ('src', 'api') and (o[2] in exprs or o[2] in edited):
                     return False
+                if o[1] == 'fault' and (o[2] in exprs or sum(1 for x in burst if x[2] == o[2]) != 1):
+                    return False        # a fault begins / ends alone on its port, on a port without expression
+                if o[1] in ('expr', 'api') and o[2] in faulting:
+                    return False
                 if o[1] == 'expr' and o[3] is not None and any(q >= o[2] for q in hub_c01.expr_deps(o[3])):
                     return False
             for o in burst:
                 if o[1] == 'expr':
                     (exprs.discard if o[3] is None else exprs.add)(o[2])
+                elif o[1] == 'fault':
+                    (faulting.discard if o[3] is None else faulting.add)(o[2])
         return True
 
     def shrink_candidates(self, case):
@@ -325,10 +361,24 @@ class C01(Prop):
                 if r != 'ok':
                     return None, 'out-of-model:' + r
                 ask('settle 400')
+        faulting, unseen = set(), {}
         for burst in [[]] + list(case['bursts']):
             for op in burst:
                 k, i = op[1], op[2]
-                if k == 'src':
+                if k == 'fault':
+                    # a failing read is a stuttering step of the model (Core.passSkip): nothing to tell the driver; the
+                    # register changes made while the driver cannot be read become visible when it recovers
+                    if op[3] is not None:
+                        faulting.add(i)
+                        continue
+                    faulting.discard(i)
+                    if i not in unseen:
+                        continue
+                    line = f'src {i} {self._fmt(unseen.pop(i))}'
+                elif k == 'src' and i in faulting:
+                    unseen[i] = op[3]
+                    continue
+                elif k == 'src':
                     line = f'src {i} {self._fmt(op[3])}'
                 elif k == 'api':
                     line = f'api {i} {self._fmt(op[3])}'
@@ -341,7 +391,7 @@ class C01(Prop):
                 r = ask(line)
                 if r == 'bad-op':
                     raise AssertionError(f'driver rejected {line!r}')
-                if r != 'ok' and k in ('expr', 'src'):
+                if r != 'ok' and k in ('expr', 'src', 'fault'):
                     return None, 'out-of-model:' + k
                 if eager:
                     r = ask('settle 400')
@@ -396,6 +446,9 @@ class C01(Prop):
         ports = case['ports']
         n = len(ports)
         cur_expr = {i: p['expr'] for i, p in enumerate(ports) if p.get('expr') is not None}
+        faulting, unseen = set(), set()
+        fault_clean = set() # faulting ports that were enabled (and polled) when the fault began and stayed enabled
+        enabled_now = [p.get('enabled', True) for p in ports]
         floating = set()    # ports whose expression was cleared: they keep whatever was written last (schedule-dependent)
         wrote = False
         model, mtag = self._model(case, driver)
@@ -411,11 +464,31 @@ class C01(Prop):
                     else:
                         cur_expr[op[2]] = op[3]
                         floating.discard(op[2])
+                elif op[1] == 'src' and op[2] in faulting:
+                    unseen.add(op[2])       # the hub cannot see this change before the driver recovers
                 elif op[1] in ('src', 'api') and not any(o[1] == 'expr' and o[2] == op[2] for o in burst):
                     floating.discard(op[2])
+                elif op[1] == 'fault':
+                    if op[3] is not None:
+                        faulting.add(op[2])
+                    else:
+                        faulting.discard(op[2])
+                        if op[2] in unseen:
+                            unseen.discard(op[2])
+                            floating.discard(op[2])
+                    if op[3] is not None and enabled_now[op[2]]:
+                        fault_clean.add(op[2])
+                    else:
+                        fault_clean.discard(op[2])
+                elif op[1] == 'en':
+                    fault_clean.discard(op[2])
             st = ob['state']
+            enabled_now = [x['enabled'] for x in st]
             for entry in ob['log']:
                 tags.add(f'{entry[0]}:{entry[2]}')
+            for x in st:
+                if x.get('fault'):
+                    tags.add('quiescent-with-read-fault:' + x['fault'])
             if not ob['quiet']:
                 fail = fail or Failure('correspondence', f'burst {b}: the real hub did not become quiescent', real=ob)
                 break
@@ -484,7 +557,7 @@ class C01(Prop):
                 det = {}
                 for i, s in enumerate(st):
                     e = cur_expr.get(i)
-                    ok = s['enabled'] and mst[i][0] and i not in floating
+                    ok = s['enabled'] and mst[i][0] and i not in floating and (not s.get('fault') or i in fault_clean)
                     if e is not None and ok:
                         ok = s['ref'][0] != 'err' and mst[i][3] != 'err' and all(
                             det.get(q, False) or not st[q]['enabled'] for q in hub_c01.expr_deps(e))
